@@ -461,6 +461,7 @@ func c18FreshTarget(r *core.Run, rule string) {
 // follows the call, no return that reports success (a nil error) is reachable, and the error is tested or returned.
 func c18ErrProp(r *core.Run) {
 	p := r.P
+	r.Explain += " (ERRPROP) after a load / migrate / add / save call of the storage layer failed, no return of the command that can report success is reachable."
 	table := map[string]bool{"MigrateFromJSON": true, "ExportToJSON": true, "LoadDatabase": true, "SaveDatabase": true, "AddSignature": true, "AddSignatures": true}
 	n := 0
 	for _, fn := range p.FuncsIn("internal/cli") {
@@ -577,6 +578,7 @@ func c18ErrProp(r *core.Run) {
 // few fields and drops every other update), and in a batch every iteration writes its record unless the element is nil.
 func c18Store(r *core.Run) {
 	p := r.P
+	r.Explain += " (STORE) in the embedded store success is reported only after the record write, and every non-nil, non-superseded element of a batch has its record written."
 	n := 0
 	for _, fn := range p.FuncsIn("pkg/storage/pebbledb") {
 		if fn.Parent() != nil || fn.Signature.Recv() == nil {
